@@ -269,10 +269,14 @@ def observe_labels(prog, labels):
 def orgs_well_placed(prog):
     """The shapes the property is silent on are not generated: an .org must be followed, within its
     segment block, by something that occupies space."""
+    cur = "code"
     for i, l in enumerate(prog):
+        if l["k"] == "seg":
+            cur = l["s"]
         if l["k"] == "org":
             j = i + 1
-            while j < len(prog) and prog[j]["k"] == "blank":
+            # labels and a directive that re-selects the segment already current change nothing (C12: "reached by .org")
+            while j < len(prog) and (prog[j]["k"] == "blank" or (prog[j]["k"] == "seg" and prog[j]["s"] == cur)):
                 j += 1
             if j >= len(prog) or prog[j]["k"] not in ("instr", "data", "byte"):
                 return False
@@ -335,6 +339,8 @@ def gen_layout_random(rnd, n, devs):
                 back = faulty and rnd.random() < 0.3
                 target = cnt[cur] + rnd.randrange(1, 20) if not back else max(0, cnt[cur] - rnd.randrange(1, 5))
                 prog.append(org(target))
+                if rnd.random() < 0.15:
+                    prog.append(seg(cur))           # re-selecting the current segment changes nothing
                 cnt[cur] = max(cnt[cur], target)
                 # something that takes space must follow
                 k = "byte" if cur == "data" else rnd.choice(["db1", "dw"]) if cur == "eeprom" else rnd.choice(["w1", "w2", "db3"])
@@ -389,9 +395,13 @@ def check_c02(prop, tier, seed, devices):
     # layout through macro expansion: bodies that begin with / contain .org, switch segments, define labels used outside
     mb = {n: (k, b) for n, k, b in macro_bodies()}
     for name, args in (("vector", [E(3)]), ("vector", [E(0x20)]), ("vectorlit", [R(17)]), ("midorg", [E(5)]), ("eefirst", [E(9)]), ("ramfirst", [E(4)]),
-                       ("ramvar", [E(2)]), ("eevar", [E(7)])):
+                       ("ramvar", [E(2)]), ("eevar", [E(7)]), ("noargs", []), ("incr", [R(20)]), ("counted", []), ("cond", [E(5)])):
         kinds_, body = mb[name]
-        for pre in ([], [instr("nop")], [instr("nop"), instr("jmp", E(0))], [seg("eeprom"), data(1, E(1)), seg("code"), instr("nop")]):
+        pres = [[], [instr("nop")], [instr("nop"), instr("jmp", E(0))], [seg("eeprom"), data(1, E(1)), seg("code"), instr("nop")]]
+        if body[0]["k"] not in ("org", "seg"):
+            # '.org N' whose next item comes out of a macro (a vector table written with a macro)
+            pres += [[org(0x40)], [instr("nop"), org(0x33)], [org(0x12), label("entry")]]
+        for pre in pres:
             prog = [line("macro", n=name)] + copy.deepcopy(body) + [line("endm")] + copy.deepcopy(pre) + [call(name, *copy.deepcopy(args)), instr("ret", lab="behind"),
                                                                                                     seg("eeprom"), data(1, E(0x77), lab="eebehind")]
             observe_labels(prog, ["behind", "eebehind"])
@@ -406,6 +416,11 @@ def check_c02(prop, tier, seed, devices):
                 prog[-1]["lab"] = "here"
                 observe_labels(prog, ["here"])
                 cases.append(Case(prog, tag=tag))
+                if tag != "org-zero-after-content":
+                    prog = [seg(segname)] + [copy.deepcopy(unit) for _ in range(k)] + [org(base + target + 0x10), seg(segname), copy.deepcopy(unit)]
+                    prog[-1]["lab"] = "here"
+                    observe_labels(prog, ["here"])
+                    cases.append(Case(prog, tag="org-then-same-segment"))
     return run_cases(prop, tier, seed, cases, devices, keyf=default_key, mc=mc,
                      extra=[pipeline_extra(sample=2500 if tier == "quick" else 20000, fixtures=True, suite=True, seed=seed)],
                      rule="all sequences up to length 3 (quick) / 4 (thorough) over a 16-symbol layout alphabet x 3 device classes, "
@@ -448,7 +463,7 @@ def filler(rnd, words, style, base):
             out.append(data(1, S("q" * 200)))
             left -= 100
             continue
-        s = style if style != "mix" else rnd.choice(["nop", "jmp", "db", "dw", "dbs"])
+        s = style if style != "mix" else rnd.choice(["nop", "jmp", "db", "dw", "dbs", "dbu"])
         if s == "jmp" and left >= 2:
             out.append(instr("jmp", E(0)))
             left -= 2
@@ -458,6 +473,15 @@ def filler(rnd, words, style, base):
         elif s == "dbs" and left >= 2:
             out.append(data(1, S("abc")))               # three bytes, padded to two words
             left -= 2
+        elif s == "dbu" and left >= 3:
+            out.append(data(1, S("déjà")))              # four characters, six bytes, three words
+            left -= 3
+        elif s == "dbu" and left >= 2:
+            out.append(data(1, S("°C")))                # two characters, three bytes, two words
+            left -= 2
+        elif s == "dbu":
+            out.append(data(1, S("é")))                 # one character, two bytes, one word
+            left -= 1
         elif s == "dw":
             out.append(data(2, E(0xbeef)))
             left -= 1
@@ -485,7 +509,7 @@ def branch_case(rnd, kind, d, style, naming, prefix):
 def check_c03(prop, tier, seed, devices):
     rnd = random.Random(seed)
     cases = []
-    styles = ["nop", "jmp", "db", "dw", "dbs", "org", "mix"]
+    styles = ["nop", "jmp", "db", "dw", "dbs", "dbu", "org", "mix"]
     br_bound = [-70, -66, -65, -64, -63, -62, -2, -1, 0, 1, 2, 61, 62, 63, 64, 65, 66, 70]
     rj_bound = [-2056, -2050, -2049, -2048, -2047, -2046, -1, 0, 1, 2046, 2047, 2048, 2049, 2056]
     # every kind at every boundary distance, fillers rotated (thorough: all fillers)
@@ -996,6 +1020,20 @@ def fault_lines():
         ("out-of-range", [instr("sbi", E(40), E(1))]),
         ("out-of-range", [instr("adiw", R(24), E(64))]),
         ("out-of-range", [instr("ldi", R(3), E(1))]),
+        # values whose low byte / low word alone would be a valid operand
+        ("out-of-range-wrap", [instr("out", E(0x10b), R(16))]),
+        ("out-of-range-wrap", [instr("in", R(16), E(lit(-251)))]),
+        ("out-of-range-wrap", [instr("sbi", E(0x105), E(1))]),
+        ("out-of-range-wrap", [instr("cbi", E(5), E(0x101))]),
+        ("out-of-range-wrap", [instr("ldi", R(16), E(0x10005))]),
+        ("out-of-range-wrap", [instr("adiw", R(24), E(0x101))]),
+        ("out-of-range-wrap", [instr("bld", R(0), E(0x100))]),
+        ("out-of-range-wrap", [instr("lds", R(16), E(0x10060))]),
+        ("out-of-range-wrap", [instr("ldd", R(16), IX("Y", "disp", lit(0x101)))]),
+        ("out-of-range-wrap", [instr("rjmp", E(binop("+", sym("pc"), lit(0x1001))))]),
+        ("out-of-range-wrap", [instr("brne", E(binop("+", sym("pc"), lit(0x81))))]),
+        ("out-of-range-wrap", [data(1, E(0x10041))]),
+        ("out-of-range-wrap", [data(2, E(0x100001234))]),
         ("undef-instr", [instr("ldi", R(16), E(sym("nosuch")))]),
         ("undef-data", [data(2, E(sym("nosuch")))]),
         ("undef-set", [setv("zz", binop("+", sym("nosuch"), lit(1)))]),
@@ -1054,12 +1092,20 @@ def check_c15(prop, tier, seed, devices):
             for shift in (0, 7):
                 q = [line("blank") for _ in range(shift)] + copy.deepcopy(prog)
                 cases.append(Case(q, tag="messages", chkline=True, msg_texts=texts))
+            # the same placement with the conditional directives in the '#' spelling (all of them / a seeded half)
+            for mode in (0, 1):
+                q = copy.deepcopy(prog)
+                for l in q:
+                    if l["k"] in CONDK and (mode == 0 or rnd.random() < 0.5):
+                        l["pfx"] = "#"
+                cases.append(Case(q, tag="messages#", chkline=True, msg_texts=texts))
     return run_cases(prop, tier, seed, cases, devices, keyf=default_key,
-                     rule="5 valid base programs x every insertion position x 28 single-line faults (syntax, unknown mnemonic, wrong kind, "
-                          "out of range, undefined symbol in instruction/data/.set/.if/.elif also beside a deciding && / ||, zero divisor, misfit, string in .dw, "
+                     rule="5 valid base programs x every insertion position x %d single-line faults (syntax, unknown mnemonic, wrong kind, "
+                          "out of range also by a multiple of 256 / 65536, undefined symbol in instruction/data/.set/.if/.elif also beside a deciding && / ||, zero divisor, misfit, string in .dw, "
                           "duplicate label, .error), each built as is and "
                           "shifted down by 7 lines; the error text must contain the specification's fault line as an integer token both times; "
-                          "plus 2304 placements of .message/.warning/.error in and around taken and untaken branches, including .elif chains and nested chains",
+                          "plus 2304 placements of .message/.warning/.error in and around taken and untaken branches, including .elif chains and nested chains, "
+                          "in the '.' and the '#' spelling of the conditional directives" % len(fault_lines()),
                      assumptions=["messages from macro bodies and line numbers inside included files are not checked (property silent)"])
 
 
@@ -1089,6 +1135,22 @@ def limit_cases(devname, d):
             add("flash.dd", [org(n - 2), data(4, E(1))])
         if n >= 3:
             add("flash.mixed", [instr("nop"), data(1, S("ab")), org(n - 1), instr("ret")])
+    # origins that only fit modulo 2^32 / 2^16
+    for big in (1 << 32, (1 << 32) + F - 1, (1 << 32) + 1, (1 << 33) + 2, (1 << 40)):
+        add("flash.org-wrap", [org(big), instr("nop")])
+        add("eeprom.org-wrap", [seg("eeprom"), org(big), data(1, E(1))])
+        add("ram.org-wrap", [seg("data"), org(big + RS), byte(1)])
+    add("flash.org-wrap", [equ("far", 1 << 32), org(binop("+", sym("far"), lit(2))), instr("nop")])
+    for delta in (-1, 0, 1):
+        n = F + delta
+        if n >= 1:
+            add("flash.org-reselect", [org(n - 1), seg("code"), instr("nop")])
+        m = E_ + delta
+        if m >= 1:
+            add("eeprom.org-reselect", [seg("eeprom"), org(m - 1), seg("eeprom"), data(1, E(1))])
+        r = R_ + delta
+        if r >= 1:
+            add("ram.org-reselect", [seg("data"), org(RS + r - 1), seg("data"), byte(1)])
     # eeprom (bytes)
     for delta in (-1, 0, 1):
         n = E_ + delta
